@@ -317,3 +317,82 @@ def idx_classes(ctx, idx, N):
         ctx.count("indices_reversed")
     if idx != list(range(len(idx))):
         ctx.count("indices_non_prefix")
+
+
+# ------------------------------------------------------------------------------------------ public entry points
+# name, attribute, form ('bi' = two trains as positional args, 'list' = one list argument, 'any' = both forms),
+# keyword groups it accepts
+ENTRY_POINTS = [
+    ("isi_profile", "any", ("MRTS",), False),
+    ("isi_profile_multi", "list", ("MRTS",), False),
+    ("isi_distance", "any", ("MRTS",), True),
+    ("isi_distance_multi", "list", ("MRTS",), True),
+    ("isi_distance_matrix", "list", ("MRTS",), True),
+    ("spike_profile", "any", ("MRTS", "RI"), False),
+    ("spike_profile_multi", "list", ("MRTS", "RI"), False),
+    ("spike_distance", "any", ("MRTS", "RI"), True),
+    ("spike_distance_multi", "list", ("MRTS", "RI"), True),
+    ("spike_distance_matrix", "list", ("MRTS", "RI"), True),
+    ("spike_sync_profile", "any", ("MRTS", "max_tau"), False),
+    ("spike_sync_profile_multi", "list", ("MRTS", "max_tau"), False),
+    ("spike_sync", "any", ("MRTS", "max_tau"), True),
+    ("spike_sync_multi", "list", ("MRTS", "max_tau"), True),
+    ("spike_sync_matrix", "list", ("MRTS", "max_tau"), True),
+    ("spike_train_order_profile", "any", ("MRTS", "max_tau"), False),
+    ("spike_train_order_profile_bi", "bi", ("MRTS", "max_tau"), False),
+    ("spike_train_order_profile_multi", "list", ("MRTS", "max_tau"), False),
+    ("spike_train_order", "any", ("MRTS", "max_tau"), False),
+    ("spike_train_order_bi", "bi", ("MRTS", "max_tau"), False),
+    ("spike_train_order_multi", "list", ("MRTS", "max_tau"), False),
+    ("spike_directionality", "bi", ("MRTS", "max_tau"), False),
+    ("spike_directionality_values", "any", ("MRTS", "max_tau"), False),
+    ("spike_directionality_matrix", "list", ("MRTS", "max_tau"), False),
+]
+
+
+def result_equal(ps, r1, r2, tol=1e-12):
+    """structural comparison of two results of the same public function; returns None if equal else a description"""
+    if isinstance(r1, BaseException) or isinstance(r2, BaseException):
+        if type(r1) is type(r2):
+            return None
+        return "exception mismatch: %r vs %r" % (r1, r2)
+    if isinstance(r1, ps.SpikeTrain):
+        if not isinstance(r2, ps.SpikeTrain):
+            return "type mismatch"
+        if r1.t_start != r2.t_start or r1.t_end != r2.t_end or not np.array_equal(r1.spikes, r2.spikes):
+            return "spike trains differ: %s [%r,%r] vs %s [%r,%r]" % (short(r1.spikes.tolist()), r1.t_start, r1.t_end,
+                                                                      short(r2.spikes.tolist()), r2.t_start, r2.t_end)
+        return None
+    for cls, names, exact in ((ps.PieceWiseConstFunc, ("x", "y"), ("x",)), (ps.PieceWiseLinFunc, ("x", "y1", "y2"), ("x",)),
+                              (ps.DiscreteFunc, ("x", "y", "mp"), ("x", "mp"))):
+        if isinstance(r1, cls):
+            if not isinstance(r2, cls):
+                return "type mismatch %s vs %s" % (type(r1).__name__, type(r2).__name__)
+            for n in names:
+                a, b = np.asarray(getattr(r1, n), dtype=float), np.asarray(getattr(r2, n), dtype=float)
+                if cls is ps.DiscreteFunc and n != "x":
+                    a, b = a[1:-1], b[1:-1]
+                if a.shape != b.shape:
+                    return "%s: shapes %r vs %r (%s vs %s)" % (n, a.shape, b.shape, short(a.tolist()), short(b.tolist()))
+                if n in exact:
+                    if not np.array_equal(a, b):
+                        return "%s differs: %s vs %s" % (n, short(a.tolist()), short(b.tolist()))
+                elif not np.allclose(a, b, rtol=0, atol=tol * max(1.0, float(np.max(np.abs(b))) if b.size else 1.0)):
+                    return "%s differs: %s vs %s" % (n, short(a.tolist()), short(b.tolist()))
+            return None
+    if isinstance(r1, (list, tuple)):
+        if not isinstance(r2, (list, tuple)) or len(r1) != len(r2):
+            return "sequence length/type mismatch: %s vs %s" % (short(r1), short(r2))
+        for k, (a, b) in enumerate(zip(r1, r2)):
+            d = result_equal(ps, a, b, tol)
+            if d:
+                return "[%d] %s" % (k, d)
+        return None
+    a, b = np.asarray(r1, dtype=float), np.asarray(r2, dtype=float)
+    if a.shape != b.shape:
+        return "shapes %r vs %r" % (a.shape, b.shape)
+    both_nan = np.isnan(a) & np.isnan(b)
+    ok = both_nan | (a == b) | (np.abs(a - b) <= tol * np.maximum(1.0, np.abs(b)))
+    if not bool(np.all(ok)):
+        return "values differ: %s vs %s" % (short(a.tolist()), short(b.tolist()))
+    return None
